@@ -446,6 +446,7 @@ class Unit:
         """
         if value == 0:
             return value, unit
+        sign = -1 if value < 0 else 1
         value = abs(value)
         if unit[-1] == 'L':
             unit = 'L'
@@ -460,7 +461,7 @@ class Unit:
             value *= 1e3
             multiplier /= 1e3
 
-        return value, {1: '', 1e-3: 'm', 1e-6: 'u'}[multiplier] + unit
+        return sign * value, {1: '', 1e-3: 'm', 1e-6: 'u'}[multiplier] + unit
 
     @staticmethod
     def calculate_concentration_ratio(solute: Substance, concentration: str, solvent: Substance) \
